@@ -5,9 +5,11 @@
 //              | rope <delta> <eqtol> | collapse <maxSteps> <maxEmpty> | bspline <maxSteps> <minChange>
 //              | perturb <stepSize> <maxSteps> <maxEmpty> <snap> | bettergoal <seconds> <attempts> <rangeRatio> <snap>
 //              | simplifymax | simplify <seconds> | interpolate <count> | interpolate0 | subdivide | hybridize <npaths>
+//   THIN <seed> <trials> <thickness> <dlo> <dhi> simplify   (see below)
 // output: IN n len cost check   P/ACC/SEG lines of the input (prefix "I")   RESULT ret n len cost check
 //         O-prefixed P/SEG lines of the output, OACC a b (accepted during the routine or consecutive in the input), KEPT flags, END
 #include "planning_common.h"
+#include <random>
 #include <ompl/geometric/PathSimplifier.h>
 #include <ompl/geometric/PathHybridization.h>
 #include <ompl/geometric/planners/rrt/RRT.h>
@@ -83,6 +85,43 @@ int main(int argc, char **argv)
             bool ret = ps.collapseCloseVertices(path, ms, me);
             std::cout << "cc " << (ret ? 1 : 0) << " |"; for (std::size_t i = 0; i < path.getStateCount(); ++i) std::cout << " " << idx.at(std::lround(path.getState(i)->as<ob::RealVectorStateSpace::StateType>()->values[0]));
             std::cout << std::endl;
+            return;
+        }
+        if (line.rfind("THIN ", 0) == 0)
+        {   // THIN <seed> <trials> <thickness> <dlo> <dhi> simplify: valid 4-state paths in [0,10]^2 whose last motion steps over a full-height wall thinner
+            // than the validity-checking step (0.1) standing dlo..dhi steps in front of the last state; simplify(path, 0.25 s) on each; the clause
+            // 'when the combined routine reports success the resulting path passes the library's validity check', and the end states
+            std::istringstream tin(line); std::string c0, rt; unsigned tseed; int trials; double thick, dlo, dhi; tin >> c0 >> tseed >> trials >> thick >> dlo >> dhi >> rt;
+            ompl::RNG::setSeed(tseed); std::mt19937 gen(tseed); auto U = [&gen](double a, double b) { return std::uniform_real_distribution<double>(a, b)(gen); };
+            const double step = 0.1; int valid_in = 0, ret_true = 0, viol = 0; std::string first;
+            for (int t = 0; t < trials; ++t)
+            {
+                auto sp = std::make_shared<ob::RealVectorStateSpace>(2); sp->setBounds(0, 10);
+                auto si = std::make_shared<ob::SpaceInformation>(sp);
+                const double x1 = 9.0 - U(dlo, dhi) * step, x0 = x1 - thick * step;
+                si->setStateValidityChecker([x0, x1](const ob::State *s) { double x = s->as<ob::RealVectorStateSpace::StateType>()->values[0]; return !(x0 < x && x < x1); });
+                si->setStateValidityCheckingResolution(step / sp->getMaximumExtent()); si->setup();
+                og::PathGeometric path(si); bool ok = false;
+                for (int attempt = 0; attempt < 400 && !ok; ++attempt)
+                {
+                    path = og::PathGeometric(si);
+                    double pts[4][2] = {{1.0, 5.0}, {3.0 + U(0, 2), 5.0 + U(-2, 2)}, {x0 - U(0.5, 3.0), 5.0 + U(-2, 2)}, {9.0, 5.0}};
+                    for (auto &p : pts) { ob::ScopedState<> q(sp); q[0] = p[0]; q[1] = p[1]; path.append(q.get()); }
+                    ok = path.check();
+                }
+                if (!ok) continue;
+                ++valid_in;
+                og::PathGeometric before(path);
+                og::PathSimplifier ps(si); bool ret = ps.simplify(path, 0.25); bool chk = path.check();
+                bool ends = path.getStateCount() >= 1 && sp->equalStates(path.getState(0), before.getState(0)) && sp->equalStates(path.getState(path.getStateCount() - 1), before.getState(3));
+                if (ret) ++ret_true;
+                if ((ret && !chk) || !ends)
+                {
+                    ++viol;
+                    if (first.empty()) { std::ostringstream o; o << "trial " << t << (ends ? "" : " end states changed;") << " simplify returned " << ret << ", check() " << chk << ", " << path.getStateCount() << " states, wall " << x0 << ".." << x1; first = o.str(); }
+                }
+            }
+            std::cout << "thin " << trials << " " << valid_in << " " << ret_true << " " << viol << " | " << first << std::endl;
             return;
         }
         std::istringstream in(line); std::string cmd, spn, envn, mode, routine; unsigned seed; double res;
